@@ -144,9 +144,7 @@ theorem nc_mergeRc (k : Kind) (rc base : Xml) (mid : Option PyExc) : NC (mergeRc
   case StoryInsert =>
     split
     · rename_i e h; exact nc_of_err (findRequired_ne h)
-    · split
-      · exact nc_crash _ _ _
-      · exact nc_insertDedup _ _ _ _ _ _
+    · exact nc_insertDedup _ _ _ _ _ _
   case ItemInsert => exact nc_inStory _ _ _ _ (fun _ => nc_insertBefore _ _ _ _ _)
   case StoryMove =>
     split
@@ -198,9 +196,7 @@ theorem nc_mergeRc (k : Kind) (rc base : Xml) (mid : Option PyExc) : NC (mergeRc
   case EAStoryInsert =>
     split
     · rename_i e h; exact nc_of_err (findTarget_ne h)
-    · split
-      · exact nc_crash _ _ _
-      · exact nc_insertDedup _ _ _ _ _ _
+    · exact nc_insertDedup _ _ _ _ _ _
   case EAItemInsert => exact nc_inStory _ _ _ _ (fun _ => nc_insertBefore _ _ _ _ _)
   case EAStorySwap => exact nc_swapTwo _ _ _ _
   case EAItemSwap => exact nc_inStory _ _ _ _ (fun _ => nc_swapTwo _ _ _ _)
